@@ -47,6 +47,7 @@ fn mk_search(property: &str, label: &str, cfg: Cfg, prefix: Vec<Op>, alphabet: V
         reopen_end: false,
         vacuum_end: false,
         reopen_cfg: None,
+        oom_tolerant: false,
     };
     f(&mut p);
     Search {
